@@ -26,6 +26,13 @@
 //   distance must equal the 64-bit cost of an independent RowLegalizer twin.
 // Stage D: further flow cases (same oracle as F) on dense designs: unit-grid circuits (row height 1-2, cell areas
 //   1-4, densities up to 100 % and above), standard-cell grids with several bins in both directions, tiny circuits.
+// Stage K: flow cases (same oracle as F) whose placement callback MODIFIES the circuit the way the API allows while a
+//   placement call is running (Circuit::setCellWidth / setCellHeight / setNetWeights do not look at the busy flag; they
+//   raise hasCellSizeUpdate_ / hasNetUpdate_, consumed by GlobalPlacer::updateCellSizes and refused by DetailedPlacer) and
+//   calls the const queries (hpwl, computeRows, report, toString).  The callback follows an explicit script (part of the
+//   replay): at the occ-th callback of a step kind (LowerBound / UpperBound / PenaltyUpdate / Detailed / any) set one cell
+//   width or height (inflate, deflate, to zero, from zero; movable and fixed cells), one net weight (zero, fractional, up to
+//   16) or run the queries.  A share of the circuits has movable cells of zero area next to the movable cells of positive area.
 // Stages T/Y, I/J, P/Q: TetrisLegalizer, IncrNetModel and DetailedPlacement driven directly, in-domain (batches,
 //   same values, never a fault) and beyond the domain (one child per case, the checked model predicts the kills).
 // Stage U: Transportation1d::assign on single lines of bins (unit supplies, full lines), tied to Model/Transp1d.
@@ -129,13 +136,17 @@ struct Spec {
   }
   // the C07 domain: at least one row and one movable cell of positive area, |v| <= 2^22, areas < 2^31,
   // rows of one height with positive width
-  std::string domainError() const {
+  // allowZeroMovable (stage K): movable cells of zero area are accepted next to at least one movable cell of positive area
+  std::string domainError(bool allowZeroMovable = false) const {
     if (rows.empty()) return "no row";
     bool mov = false;
     for (int i = 0; i < n(); ++i) {
       if (w[i] < 0 || h[i] < 0) return "negative size";
       if ((long long)w[i] * h[i] >= (1ll << 31)) return "area";
-      if (!fx[i] && (w[i] <= 0 || h[i] <= 0)) return "movable cell of zero area";
+      if (!fx[i] && (w[i] <= 0 || h[i] <= 0)) {
+        if (allowZeroMovable) continue;
+        return "movable cell of zero area";
+      }
       if (!fx[i]) mov = true;
       if (w[i] > M22 || h[i] > M22) return "size";
     }
@@ -618,6 +629,17 @@ static void applyShape(vh::Rng &g, Spec &s, int shape) {
   }
 }
 
+// One modification performed by the placement callback (stage K).  It fires at the occ-th (0-based) callback whose step
+// is `step` (the value of PlacementStep: 0 LowerBound, 1 UpperBound, 2 Detailed, 3 PenaltyUpdate; -1 = any step), counted
+// over the whole entry sequence.  kind: 'w' / 'h' set the width / height of cell idx to val; 'n' sets the weight of net idx
+// to wt; 'q' runs the const queries selected by the bits of val (1 hpwl, 2 computeRows, 4 report, 8 toString).
+struct CbAct {
+  int step = -1, occ = 0;
+  char kind = 'q';
+  int idx = 0;
+  long long val = 0;
+  float wt = 1.0f;
+};
 struct Case {
   std::string kind, seq;
   int shape = 0, pmode = 0;
@@ -625,13 +647,36 @@ struct Case {
   std::string extra;  // additional distribution keys (",key,key")
   Spec spec;
   ColoquinteParameters params = ColoquinteParameters(1);
+  std::vector<CbAct> script;  // empty: the callback only observes
   std::string input() const {
     std::ostringstream os;
     os << "seq " << seq << " cb " << (cb ? 1 : 0) << "\n" << paramsString(params) << "\n";
     vc::dumpCircuit(os, spec.build());
+    if (!script.empty()) {
+      os << "cbscript " << script.size() << "\n";
+      for (const CbAct &a : script) {
+        os << "act " << a.step << " " << a.occ << " " << a.kind << " " << a.idx << " ";
+        if (a.kind == 'n') os << vc::exactDouble(a.wt); else os << a.val;
+        os << "\n";
+      }
+    }
     return os.str();
   }
 };
+static bool parseScript(std::istream &is, std::vector<CbAct> &script) {
+  std::string tok;
+  size_t n = 0;
+  if (!(is >> tok)) return true;  // no script
+  if (tok != "cbscript" || !(is >> n)) return false;
+  for (size_t i = 0; i < n; ++i) {
+    CbAct a;
+    if (!(is >> tok >> a.step >> a.occ >> a.kind >> a.idx) || tok != "act") return false;
+    if (a.kind == 'n') { long long mant; int e; if (!(is >> mant >> e)) return false; a.wt = (float)std::ldexp((double)mant, e); }
+    else if (!(is >> a.val)) return false;
+    script.push_back(a);
+  }
+  return true;
+}
 
 static bool genCase(vh::Rng &g, const vh::Args &a, Case &cs) {
   int maxCells = a.thorough() ? 14 : 9;
@@ -736,6 +781,132 @@ static bool genDenseCase(vh::Rng &g, const vh::Args &a, Case &cs) {
   return false;
 }
 
+// ------------------------------------------------------------------ stage K: callbacks that modify the circuit
+// Circuit (classic or dense kinds, smaller so that global placement makes many steps within the budget) + optionally
+// movable cells of zero area + a callback script.  Sizes set by the script stay inside the C07 domain (0 <= size <= 2^22,
+// area < 2^31, a fixed cell stays within +-2^22).
+static bool genCbCase(vh::Rng &g, const vh::Args &a, Case &cs) {
+  for (int attempt = 0; attempt < 20; ++attempt) {
+    bool ok = g.chance(1, 2) ? genCase(g, a, cs) : genDenseCase(g, a, cs);
+    if (!ok) continue;
+    Spec &s = cs.spec;
+    if (s.n() > 150) continue;  // keep the case cheap: the script matters, not the size
+    cs.kind = "cbmod_" + cs.kind;
+    // entry sequences: mostly through placeGlobal (the only consumer of size updates), the others must refuse or ignore
+    static const char *seqs[] = {"G", "G", "G", "GD", "GD", "GLD", "LD", "D", "L", "DG"};
+    cs.seq = seqs[g.range(0, 9)];
+    cs.cb = true;
+    if (cs.params.global.maxNbSteps > 60) cs.params.global.maxNbSteps = g.range(5, 60);
+    if (cs.params.global.nbInitialSteps >= cs.params.global.maxNbSteps) cs.params.global.nbInitialSteps = 0;
+    try { cs.params.check(); } catch (const std::exception &) { continue; }
+    long long H = s.rows[0].height();
+    std::vector<int> mov, fixed, zero;
+    for (int i = 0; i < s.n(); ++i) (s.fx[i] ? fixed : mov).push_back(i);
+    // movable cells of zero area (zero width, zero height or both), some of them connected
+    int nz = g.chance(1, 2) ? 0 : g.range(1, 3);
+    for (int k = 0; k < nz && !mov.empty(); ++k) {
+      int like = g.pick(mov);
+      int zm = g.range(0, 3);
+      int w = zm == 1 ? 0 : s.w[like], h = zm == 2 ? 0 : s.h[like];
+      if (zm == 0 || zm == 3) { w = 0; h = zm == 0 ? (int)H : 0; }
+      int id = s.n();
+      s.addCell(w, h, s.x[like], s.y[like], false, g.chance(1, 2), vc::pickUnturned(g), CellRowPolarity::ANY);
+      zero.push_back(id);
+      if (g.chance(2, 3)) {
+        NetS nt;
+        nt.c = {id, g.pick(mov)};
+        nt.xo = {0, 0}; nt.yo = {0, 0};
+        s.nets.push_back(nt);
+      }
+    }
+    if (!s.domainError(true).empty()) continue;
+    // the script.  One movable cell of positive area (the anchor) is never resized, so that whatever subset of the
+    // actions has fired when the next entry point starts, the circuit is still in the domain; sizes stay <= 2^22 and
+    // areas < 2^31 for every combination of the values a cell is given
+    bool fromZero = false, toZero = false, fixedResize = false, netW = false, query = false, inflate = false;
+    int anchor = g.pick(mov);
+    std::vector<int> resizable;
+    for (int i : mov) if (i != anchor) resizable.push_back(i);
+    std::vector<long long> maxW(s.w.begin(), s.w.end()), maxH(s.h.begin(), s.h.end());
+    int nTrig = g.range(1, 5);
+    for (int t = 0; t < nTrig; ++t) {
+      CbAct base;
+      int sm = g.range(0, 9);
+      base.step = sm < 4 ? -1 : (sm < 6 ? 0 : (sm < 8 ? 1 : (sm < 9 ? 3 : 2)));
+      base.occ = g.chance(1, 8) ? g.range(4, 40) : g.range(0, 3);
+      int nAct = g.range(1, 4);
+      for (int k = 0; k < nAct; ++k) {
+        CbAct ac = base;
+        int am = g.range(0, 9);
+        int tm = g.range(0, 9);
+        int c = -1;
+        if (am < 6) {
+          // resize one cell: a zero-area movable cell first when there is one
+          if (!zero.empty() && tm < 4) c = g.pick(zero);
+          else if (!fixed.empty() && tm < 6) c = g.pick(fixed);
+          else if (!resizable.empty()) c = g.pick(resizable);
+          else if (!zero.empty()) c = g.pick(zero);
+          else if (!fixed.empty()) c = g.pick(fixed);
+        }
+        if (c >= 0) {
+          bool width = g.chance(2, 3);
+          long long cur = width ? s.w[c] : s.h[c], other = width ? s.h[c] : s.w[c];
+          long long v;
+          int vm = g.range(0, 7);
+          if (cur == 0) {  // from zero
+            v = width ? (g.chance(1, 2) ? g.range(1, 6) : std::max(1ll, H / 2)) : (g.chance(3, 4) ? H : g.range(1, 2 * H));
+            if (vm == 0) v = 0;
+          } else if (vm == 0) v = 0;
+          else if (vm == 1) v = cur + (cur + 3) / 4;  // +25 %
+          else if (vm == 2) v = cur * 2;
+          else if (vm == 3) v = cur + 1;
+          else if (vm == 4) v = std::max(0ll, cur - 1);
+          else if (vm == 5) v = cur - cur / 4;
+          else if (vm == 6) v = width ? cur : (cur / H + 1) * H;  // one more row
+          else v = g.range(0, 2 * cur + 2);
+          v = std::max(0ll, std::min(v, M22));
+          // the bins of the density grid are sized after the smallest positive cell height: a height far below the row
+          // height would only make a later placeGlobal slow (millions of bins), which is not the subject here
+          if (!width && v > 0 && v < H / 4) v = H / 4;
+          long long otherMax = width ? maxH[c] : maxW[c];
+          while (v > 0 && v * otherMax >= (1ll << 31)) v /= 2;
+          if (s.fx[c]) v = std::min(v, std::max(0ll, M22 - std::max<long long>(s.x[c], s.y[c])));
+          (width ? maxW[c] : maxH[c]) = std::max(width ? maxW[c] : maxH[c], v);
+          ac.kind = width ? 'w' : 'h';
+          ac.idx = c;
+          ac.val = v;
+          if (!s.fx[c] && cur * other == 0 && v > 0 && (width ? s.h[c] : s.w[c]) > 0) fromZero = true;
+          if (!s.fx[c] && cur * other > 0 && v == 0) toZero = true;
+          if (!s.fx[c] && v > cur && cur > 0) inflate = true;
+          if (s.fx[c]) fixedResize = true;
+        } else if (am < 8 && !s.nets.empty()) {
+          static const float ws[] = {0.0f, 0.25f, 0.5f, 1.0f, 1.5f, 3.0f, 16.0f, 0.001f};
+          ac.kind = 'n';
+          ac.idx = g.range(0, s.nets.size() - 1);
+          ac.wt = ws[g.range(0, 7)];
+          netW = true;
+        } else {
+          ac.kind = 'q';
+          ac.val = g.range(1, 15);
+          query = true;
+        }
+        cs.script.push_back(ac);
+      }
+    }
+    std::ostringstream ex;
+    ex << cs.extra << ",cbmod_zero_area_movable_cells_" << zero.size();
+    if (fromZero) ex << ",cbmod_script_movable_from_zero_area";
+    if (toZero) ex << ",cbmod_script_movable_to_zero_area";
+    if (inflate) ex << ",cbmod_script_movable_inflated";
+    if (fixedResize) ex << ",cbmod_script_fixed_cell_resized";
+    if (netW) ex << ",cbmod_script_net_weight";
+    if (query) ex << ",cbmod_script_queries";
+    cs.extra = ex.str();
+    return true;
+  }
+  return false;
+}
+
 // ------------------------------------------------------------------ running one flow case in a child
 static void silenceStdout() {
   int dn = open("/dev/null", O_WRONLY);
@@ -757,9 +928,43 @@ static void runFlow(const Case &cs, std::ostream &os) {
   silenceStdout();
   signal(SIGALRM, onAlarm);
   Circuit c = cs.spec.build();
-  long long nCb = 0;
+  long long nCb = 0, nFired = 0, nQueryThrow = 0;
+  long long perStep[4] = {0, 0, 0, 0};
   std::optional<PlacementCallback> cb;
-  if (cs.cb) cb = [&](PlacementStep) { ++nCb; (void)c.hpwl(); };
+  if (cs.cb || !cs.script.empty()) cb = [&](PlacementStep st) {
+    int s = (int)st;
+    long long any = nCb++, mine = (s >= 0 && s < 4) ? perStep[s]++ : -1;
+    (void)c.hpwl();
+    // stage K: the modifications the API allows while a placement call is running, and the const queries
+    for (const CbAct &a : cs.script) {
+      if (a.step == -1 ? a.occ != any : (a.step != s || a.occ != mine)) continue;
+      ++nFired;
+      if (a.kind == 'w' && a.idx >= 0 && a.idx < c.nbCells()) {
+        std::vector<int> w = c.cellWidth();
+        w[a.idx] = (int)a.val;
+        c.setCellWidth(w);
+      } else if (a.kind == 'h' && a.idx >= 0 && a.idx < c.nbCells()) {
+        std::vector<int> h = c.cellHeight();
+        h[a.idx] = (int)a.val;
+        c.setCellHeight(h);
+      } else if (a.kind == 'n' && a.idx >= 0 && a.idx < c.nbNets()) {
+        std::vector<float> w;
+        for (int n = 0; n < c.nbNets(); ++n) w.push_back(c.netWeight(n));
+        w[a.idx] = a.wt;
+        c.setNetWeights(w);
+      } else if (a.kind == 'q') {
+        // a query may refuse (report() needs rows of one height): that is an exception of the query, kept apart
+        try {
+          if (a.val & 1) (void)c.hpwl();
+          if (a.val & 2) (void)c.computeRows();
+          if (a.val & 4) (void)c.report();
+          if (a.val & 8) (void)c.toString();
+        } catch (const std::exception &) {
+          ++nQueryThrow;
+        }
+      }
+    }
+  };
   for (char e : cs.seq) {
     const char *name = e == 'G' ? "global" : (e == 'L' ? "legalize" : "detailed");
     try {
@@ -772,6 +977,11 @@ static void runFlow(const Case &cs, std::ostream &os) {
     } catch (...) {
       os << name << " throw:other\n";
     }
+  }
+  if (!cs.script.empty()) {
+    os << "cbmod_actions_fired " << (nFired == 0 ? "0" : (nFired <= 2 ? "1-2" : "3+")) << "\n";
+    os << "cbmod_callbacks " << (nCb == 0 ? "0" : (nCb <= 5 ? "1-5" : (nCb <= 30 ? "6-30" : "31+"))) << "\n";
+    if (nQueryThrow) os << "cbmod_query throw\n";
   }
 }
 
@@ -906,7 +1116,7 @@ static Rec flowRecord(const std::string &id, long long k, const Case &cs, int ti
     std::string nm, res;
     while (is >> nm >> res) {
       cnt << ",flow_" << nm << "_" << res;
-      if (res == "ok") anyOk = true;
+      if (res == "ok" && nm.compare(0, 6, "cbmod_") != 0) anyOk = true;
     }
   }
   if (fate != "ok") {
@@ -914,8 +1124,10 @@ static Rec flowRecord(const std::string &id, long long k, const Case &cs, int ti
     std::string tag = slowSolver ? "KF-C07-1_slow_transportation_solver" : knownTag(sum);
     if (slowSolver) r.kf = "KF-C07-1";
     cnt << ",flow_fault_" << tag;
-    r.what = "placement entry sequence " + cs.seq + " on a " + cs.kind + "/" + SHAPES[cs.shape] + " circuit ended with " + fate +
-             " instead of returning or throwing [" + tag + "]: " + sum;
+    r.what = "placement entry sequence " + cs.seq + " on a " + cs.kind + "/" + SHAPES[cs.shape] + " circuit" +
+             (cs.script.empty() ? std::string() : " whose callback resizes cells / reweights nets / queries the circuit (" +
+                                                      std::to_string(cs.script.size()) + " scripted actions)") +
+             " ended with " + fate + " instead of returning or throwing [" + tag + "]: " + sum;
     r.input = cs.input();
   } else if (anyOk) {
     r.nontrivialHash = vh::hashStr(cs.input());
@@ -1650,18 +1862,18 @@ static void detReplayOps(const std::string &text, std::ostream &os) {
 }
 
 // ------------------------------------------------------------------ worker
-struct Plan { long long nFlow, nDense, nM, nX, nS, nA, nT, nY, nI, nJ, nP, nQ, nU, nG, nH, nV, nW; int timeout; };
+struct Plan { long long nFlow, nDense, nM, nX, nS, nA, nT, nY, nI, nJ, nP, nQ, nU, nG, nH, nV, nW; int timeout; long long nK; };
 static Plan planFor(const vh::Args &a) {
-  if (a.thorough()) return {12000, 20000, 60000, 3000, 3000, 20000, 40000, 3000, 40000, 3000, 40000, 3000, 100000, 40000, 6000, 60000, 6000, 300};
-  if (a.search()) return {2500, 4000, 20000, 600, 1500, 20000, 10000, 600, 10000, 600, 10000, 600, 20000, 6000, 800, 10000, 800, 120};
-  return {1500, 2500, 20000, 1200, 400, 6000, 10000, 1000, 10000, 1000, 10000, 1000, 20000, 6000, 1200, 10000, 1200, 120};
+  if (a.thorough()) return {12000, 20000, 60000, 3000, 3000, 20000, 40000, 3000, 40000, 3000, 40000, 3000, 100000, 40000, 6000, 60000, 6000, 300, 12000};
+  if (a.search()) return {2500, 4000, 20000, 600, 1500, 20000, 10000, 600, 10000, 600, 10000, 600, 20000, 6000, 800, 10000, 800, 120, 3000};
+  return {1500, 2500, 20000, 1200, 400, 6000, 10000, 1000, 10000, 1000, 10000, 1000, 20000, 6000, 1200, 10000, 1200, 120, 1000};
 }
 static const int MBATCH = 500;
 
 static bool parseFlowCase(const std::string &in, Case &cs);
 static std::vector<std::string> corpusFiles(const std::string &dir, bool withSlow);
 
-// development aid: C07_STAGES=<letters of C F D M X S A T Y I J P Q U G H> restricts the run to these stages
+// development aid: C07_STAGES=<letters of C F D K M X S A T Y I J P Q U G H> restricts the run to these stages
 static bool stageOn(char c) {
   const char *e = getenv("C07_STAGES");
   return !e || !*e || strchr(e, c);
@@ -1712,6 +1924,18 @@ static void worker(const vh::Args &a, int w, int J, const Plan &pl, const std::s
       continue;
     }
     writeRec(f, flowRecord("d" + std::to_string(k), pl.nFlow + k, cs, pl.timeout));
+  }
+  // stage K (callbacks that modify the circuit): case ids k<k>; --only 2000000+k selects one
+  for (long long k = w; k < pl.nK && stageOn('K'); k += J) {
+    if (a.only >= 0 && k + 2000000 != a.only) continue;
+    vh::Rng g = vh::Rng::forCase(a.seed ^ 0x4b4b, k);
+    Case cs;
+    if (!genCbCase(g, a, cs)) {
+      Rec r; r.k = pl.nFlow + pl.nDense + k; r.stage = "F"; r.id = "k" + std::to_string(k); r.fate = "skipped"; r.counts = "flow_skipped_out_of_domain";
+      writeRec(f, r);
+      continue;
+    }
+    writeRec(f, flowRecord("k" + std::to_string(k), pl.nFlow + pl.nDense + k, cs, pl.timeout));
   }
   if (a.only >= 0) return;
   // stage M: batches of in-domain row-legalizer instances, one child per batch
@@ -2184,7 +2408,7 @@ static bool parseFlowCase(const std::string &in, Case &cs) {
   std::getline(is, pline);
   std::getline(is, pline);
   cs.kind = "corpus";
-  return parseParams(pline, cs.params) && parseSpec(is, cs.spec);
+  return parseParams(pline, cs.params) && parseSpec(is, cs.spec) && parseScript(is, cs.script);
 }
 
 static std::vector<std::string> corpusFiles(const std::string &dir, bool withSlow) {
@@ -2218,7 +2442,7 @@ static int replay(const vh::Args &a, vh::Out &out) {
     cs.cb = cb != 0;
     std::getline(is, pline);
     std::getline(is, pline);
-    if (!parseParams(pline, cs.params) || !parseSpec(is, cs.spec)) { out.notes.push_back("cannot parse replay"); out.finish(); return 2; }
+    if (!parseParams(pline, cs.params) || !parseSpec(is, cs.spec) || !parseScript(is, cs.script)) { out.notes.push_back("cannot parse replay"); out.finish(); return 2; }
     cs.kind = "replay";
     int tmo = 600;
     if (const char *e = getenv("C07_TIMEOUT")) tmo = std::max(1, atoi(e));
@@ -2355,7 +2579,9 @@ int main(int argc, char **argv) {
   out.rule =
       "flow case = (circuit in the C07 domain, parameter set accepted by check() in the moderate box, entry sequence over "
       "placeGlobal/legalize/placeDetailed) run in a forked child under ASan+UBSan; failure = child fate other than ok "
-      "(exceptions are caught and are allowed); non-trivial = at least one entry point returned normally (the case went "
+      "(exceptions are caught and are allowed); cases k<n> additionally run a scripted callback that resizes cells (to and "
+      "from zero, movable and fixed), reweights nets and calls hpwl/computeRows/report/toString while the call is running "
+      "(cbmod_* keys: script content and how many actions fired); non-trivial = at least one entry point returned normally (the case went "
       "through the algorithms rather than being rejected up front), distinct by canonical text of the case; "
       "unit cases (row legalizer / Tetris / IncrNetModel / DetailedPlacement streams, computeSubdivisions, Abacus cost "
       "evaluation, 1-D transportation lines, reoptimize's general transportation) at 2^22 magnitude are counted in the distribution";
